@@ -37,6 +37,9 @@ def step (st : St) (line : String) : IO St := do
       let nr := toNat! ((kv rest "nr").getD ""); let nt := toNat! ((kv rest "nt").getD "")
       let angles := parseRatsA ((kv rest "angles").getD "")
       let mut st := st
+      if (kv rest "nested_in_one_halving_less") == some "0" then
+        IO.println s!"ORACLE C18 the grid with divideBy2 = d does not contain the grid with d - 1 as its every-second-node subgrid with midpoints in between (r and theta): {st.curLine}"
+        st := { st with oracleFails := st.oracleFails + 1 }
       -- implementation oracle (C18 statement): strictly increasing from exactly R0 to exactly Rmax, odd nodes are midpoints, uniform angles
       let strict := (List.range (radii.size - 1)).all fun i => radii[i]! < radii[i+1]!
       let ends : Bool := radii.size == nr ∧ radii[0]! == g.R0 ∧ radii[radii.size-1]! == g.Rmax
